@@ -29,11 +29,14 @@ func runC20(r *Report, p *Program) {
 	h := H{r, p}
 	c20R1(h)
 	c20R2(h)
+	c20SetVerbatim(h)
 	c20R3(h)
 	c20R4(h)
 	c20R5(h)
 	c20R6(h)
 	c20R7(h)
+	bodyBypassRule(h, "R8", 1, func(t *types.Named) bool { return t.Obj().Name() == "ResponseRecorder" })
+	forwardedBytesCounted(h, "R8", "httpserver.ResponseRecorder", "size")
 }
 
 func c20R1(h H) {
